@@ -233,8 +233,8 @@ func deq(a, b reflect.Value, path string, seen map[[2]uintptr]bool) string {
 	case reflect.Struct:
 		for i := 0; i < a.NumField(); i++ {
 			fn := a.Type().Field(i).Name
-			if fn == "Obj" || fn == "Scope" {
-				continue
+			if fn == "Obj" || fn == "Scope" || (fn == "Imports" && a.Type().Name() == "Package") {
+				continue // links into the object-resolution graph
 			}
 			if d := deq(a.Field(i), b.Field(i), path+"."+fn, seen); d != "" {
 				return d
